@@ -59,7 +59,8 @@ PROPS = {
     },
     "C04": {
         "title": "one linearizable cursor",
-        "rules": [r_m1.rule_one, r_m1.rule_prov, r_m1.rule_atom, r_ticket.rule_ticket, r_ticket.rule_gate, r_live.rule_amt_pub],
+        "rules": [r_m1.rule_one, r_m1.rule_prov, r_m1.rule_atom, r_ticket.rule_ticket, r_ticket.rule_gate, r_live.rule_amt_pub,
+                  r_ticket.rule_ord, r_fwd.rule_fwd, r_m1.rule_endguard],
         "explanation": "The structural content of linearizability: each pull has exactly one RMW on the position counter inside "
                        "the call (ONE), what it delivers is a function of that RMW's result only (PROV), the counter only grows "
                        "on pull paths and is never stored to by pulls (ATOM), the wrapper serves tickets on equality only and "
